@@ -1,4 +1,4 @@
-CONSTANTS NodeId = 5  NT = 1  NR = 1  Walk = TRUE  WalkLen = 40  CfgName = "C14T"
+CONSTANTS NodeId = 5  NT = 1  NR = 1  Walk = TRUE  WalkLen = 40  PoolN = 16  CfgName = "C14T"
 CONSTANT Objs <- MCObjs  ObjOrder <- MCOrder  V0 <- MCV0  TC0 <- TC14  RC0 <- RC14  Sync0 <- S12  Letters <- L14T  ProbeLetters <- P14
 INIT Init
 NEXT Next
